@@ -8,6 +8,36 @@ CHECKS = {
    text="Exploration with exhaustive sub-spaces: all 2^16 operand pairs of u8/i8 for every operator in all three operand shapes, all source values of 8/16-bit casts and unary operators, boundary cross-products plus random operands for wider types. Observes real compile+evaluate executions only.",
    note="Trusted: the harness' i128 reference arithmetic and its bit-parallel circuit evaluator (cross-checked against garble's own eval/parse_output on one lane per batch). Wider types are sampled, not enumerated.",
    design="DESIGN.md section 2 / C03"),
+ "C04": dict(
+   technique="event-log monitor on the real CircuitBuilder (hooks): every xor/and request, incl. those issued by rewrite rules, is replayed offline against the literal function of its operands computed from the raw gate list; built circuit vs un-pruned builder; dedup on/off differential",
+   text="Exploration with exhaustive sub-spaces: all request histories up to length 3 over {xor,and,not,or,eq,mux} and length 4 over {xor,and,not} with 2 inputs (both cache settings) over the complete truth table, random long histories with composite requests (adders, dividers, comparators, sorters, panic record updates), traced real compilations, and on/off differential.",
+   note="Trusted: the builder's raw gate list as literal ground truth (each raw gate is a plain XOR/AND of earlier wires, checked), the harness evaluator. Longer histories and wide programs are sampled.",
+   design="DESIGN.md section 2 / C04"),
+ "C06": dict(
+   technique="repeated-execution monitor: every program is compiled repeatedly in-process and in fresh processes (fresh hash seeds, canary-observed) and the structural circuit hashes are compared",
+   text="Exploration: programs (crafted const chains, panic sharing, many definitions, corpus, operator programs) x dedup settings, each compiled many times under varying HashMap seeds; any difference in party sizes, gate list or outputs (or Ok vs error) is a violation.",
+   note="Hash seeds are sampled, not controlled; a canary map records how many distinct iteration orders were actually seen.",
+   design="DESIGN.md section 2 / C06"),
+ "C10": dict(
+   technique="reference-model monitor: SSA circuits are converted by the real allocator and replayed in a definedness-tracking register interpreter against an independent SSA evaluator",
+   text="Exploration with an exhaustive sub-space: all SSA circuits with <= 2 input bits, <= 3 gates, <= 2 outputs; random well-formed gate lists on all inputs (<= 16 bits); compiled circuits on random lanes. Checks validate(), input order, register bounds, and_ops, read-before-write and output equality.",
+   note="Trusted: harness interpreters (cross-checked with garble's own evaluators on one lane per circuit).",
+   design="DESIGN.md section 2 / C10"),
+ "C11": dict(
+   technique="round-trip monitor with an independent Bristol parser/evaluator; fault-injection (mutated files) against the importer in isolated worker processes",
+   text="Exploration: compiled circuits and builder-made circuits with chosen output shapes are exported, the text is checked for well-formedness and function by an independent implementation, re-imported and compared on all inputs (<= 14 bits) or random lanes; thousands of mutated files per run are fed to the importer under a watchdog.",
+   note="Trusted: the harness' Bristol reader (written from the format description). Importer runs are isolated per batch; an allocation failure for a wire count within the circuit size limit is a sandbox resource limit and only counted.",
+   design="DESIGN.md section 2 / C11"),
+ "C15": dict(
+   technique="structural invariant monitor at the quiescent point (finished circuit): reachability, AND-operand and AND-duplicate predicates; generated data-movement programs must have zero AND gates",
+   text="Exploration: every compiled corpus/operator program in both dedup settings plus generated re-packing / destructuring / constant-index programs.",
+   note="Structural reading of 'constant operand': the two constant gates directly after the inputs.",
+   design="DESIGN.md section 2 / C15"),
+ "C16": dict(
+   technique="shadow-state monitor: arbitrary and boundary-mutated circuit values; whenever validate() accepts, the real eval runs under catch_unwind and a definedness-tracking interpreter replays it",
+   text="Exploration: millions of arbitrary SSA / register circuit values and single-field mutations of valid circuits (forward/self/out-of-range references, empty parties, input instructions naming any party/index, register count 0); compiler and converter products must validate.",
+   note="Inputs are of the declared shape; declared sizes are kept small enough to materialise.",
+   design="DESIGN.md section 2 / C16"),
 }
 NOT_APPLICABLE = {}
 
